@@ -123,10 +123,13 @@ def make_transitions(states, inner_states=None, n_sites=None, labels=None, seed=
     pos = np.array([[(k + 0.5) / n_sites, 0.5, 0.5] for k in range(n_sites)])
     sites = Structure(lat, ['Li'] * n_sites, pos, labels=labels)
     coords = np.zeros((T, N, 3))
+    rng = np.random.default_rng(seed + 17)
     for t in range(T):
         for a in range(N):
             s = states[t, a]
             coords[t, a] = pos[s] if s >= 0 else [0.0, 0.0, 0.0]
+    # thermal jitter so that speeds / attempt frequency are non-degenerate (the states are given, not recomputed)
+    coords = coords + rng.normal(scale=0.004, size=coords.shape)
     traj = Trajectory(species=[Element('Li')] * N, coords=coords, lattice=lat.matrix, time_step=1e-15,
                       metadata={'temperature': 600.0})
     events = _calculate_transition_events(atom_sites=states, atom_inner_sites=inner_states)
